@@ -127,12 +127,16 @@ def do_confirm(name):
         changed = run_demos(src, d, m.get("demo_files", []))
     finally:
         remove_worktree(w)
-    w, src = scratch_worktree(None)
-    try:
-        build_and_test(src, run_tests=False)
-        orig = run_demos(src, d, m.get("demo_files", []))
-    finally:
-        remove_worktree(w)
+    pristine = os.environ.get("SEED_PRISTINE")      # a pre-built pristine worktree shared by a batch of confirmations
+    if pristine and os.path.exists(os.path.join(pristine, "_build", "chibi-scheme")):
+        orig = run_demos(pristine, d, m.get("demo_files", []))
+    else:
+        w, src = scratch_worktree(None)
+        try:
+            build_and_test(src, run_tests=False)
+            orig = run_demos(src, d, m.get("demo_files", []))
+        finally:
+            remove_worktree(w)
     differs = []
     for k in changed:
         log.append("## demonstration %s\n--- pristine tree:\n%s--- patched tree:\n%s" % (k, orig.get(k, ""), changed[k]))
